@@ -466,6 +466,40 @@ def c12(tier, replay=None):
     missing = [c for c in DEFECTS if per_class[c] == 0]
     if missing:
         raise Infra("defect classes never planted: %s" % missing)
+    # the class "disallowed character" at the boundaries of the character classes of CIF 2.0: one character in a quoted
+    # value, a bare value, a text field and a comment.  A disallowed one is reported (CIF_DISALLOWED_CHAR, on its line,
+    # once) and then accepted as it is; an allowed neighbour is not reported at all.
+    from check_roundtrip import CHAR_BOUNDS, cif2_char_ok
+    cdocs = []
+    for cp in CHAR_BOUNDS:
+        if cp in (0x09, 0x20):
+            continue
+        ch = chr(cp)
+        for where, body, val in (("quoted", "_v 'a%sb'" % ch, "a%sb" % ch), ("bare", "_v a%sb" % ch, "a%sb" % ch), ("text", "_v\n;a%sb\n;" % ch, "a%sb" % ch), ("comment", "_v 1 # a%sb" % ch, "1")):
+            cdocs.append((cp, where, "#\\#CIF_2.0\ndata_b\n_u 0\n%s\n_w 2\n" % body, val))
+    nch = 0
+    for key, po, pr, leak in parse_docs(binary, [(d[2], i) for i, d in enumerate(cdocs)], chunk=100):
+        cp, where, doc, val = cdocs[key]
+        label = "U+%04X in a %s" % (cp, where)
+        problems = []
+        if po is None:
+            problems.append("cif_parse did not return: " + sanitizer_signature(leak or ""))
+        else:
+            errs = [(e.get("code"), e.get("line")) for e in po.get("log", []) if e.get("cb") == "error"]
+            want = [] if cif2_char_ok(ch := chr(cp)) else [(104, 5 if where == "text" else 4)]
+            if errs != want:
+                problems.append("errors %s, documented %s" % (errs[:3], want))
+            got = observed_content(pr["state"]) if pr and "state" in pr else None
+            items = (got or {}).get("b", {}).get("items", {})
+            # (a noncharacter may reach the parser as U+FFFD: the decoder's substitution, not the parser's)
+            if po.get("rc") != 0 or items.get("_v", {}).get("t") not in ((val,) if cif2_char_ok(ch) else (val, val.replace(ch, "\ufffd"))) or "_u" not in items or "_w" not in items:
+                problems.append("rc %s, content %s" % (po.get("rc"), json.dumps(items, ensure_ascii=True)[:200]))
+        if problems:
+            rep.violation("disallowed character class: %s: %s" % (where, re.sub(r"[0-9]+", "N", problems[0])[:50]), "%s: %s" % (label, "; ".join(problems)), {"label": label, "document": doc})
+        else:
+            nch += 1
+    total += len(cdocs); total_ok += nch
+    log("[C12 character classes] documents %d ok %d" % (len(cdocs), nch))
     return rep.finish({"states": max(tstates, 1), "transitions": max(ttrans, 1), "traces_validated_against_impl": total_ok,
                        "documents": total, "configs": covs, "defect_classes": len(DEFECTS), "documents_per_class": dict(per_class), "exhaustive": tier != "quick",
                        "explanation": "every defect class x every admissible position among the host items x host items over the palette / presentations / separators"},
